@@ -135,6 +135,7 @@ type req struct {
 	N       int             `json:"n,omitempty"`      // churn: iterations per goroutine; lsp: repetitions
 	Expect  map[int]outcome `json:"expect,omitempty"` // batch: sequential outcome per spec index
 	Cold    bool            `json:"cold,omitempty"`   // lsp: no sequential pass before the concurrent one
+	R3      *r3req          `json:"r3,omitempty"`     // round 3 operations (round3.go)
 }
 
 type rep struct {
@@ -145,6 +146,7 @@ type rep struct {
 	Errors   int       `json:"errors,omitempty"`   // lsp: diagnostics on valid input
 	HeapMB   int       `json:"heap_mb,omitempty"`
 	Millis   int64     `json:"millis,omitempty"`
+	Gate     *gateOut  `json:"gate,omitempty"` // gate: one compilation through the gate reader
 }
 
 func spin(d time.Duration) {
@@ -252,6 +254,8 @@ func serve(line []byte) interface{} {
 			})
 			r.Errors += int(errs)
 		}
+	default:
+		serveRound3(&q, &r)
 	}
 	if q.Op != "batch" {
 		r.Count = parser.VerifLexerStateCount() - before
@@ -277,16 +281,19 @@ func memoryWatchdog(limitMB int) {
 // ------------------------------------------------------------------ replay descriptor
 
 type replay struct {
-	Kind    string `json:"kind"` // seq | batch | cold | coldlsp | churn | lsp | keyed | post
-	Specs   []spec `json:"specs,omitempty"`
-	Jobs    []int  `json:"jobs,omitempty"`
-	K       int    `json:"k,omitempty"`
-	Procs   int    `json:"procs,omitempty"`
-	OffSeed uint64 `json:"offseed,omitempty"`
-	N       int    `json:"n,omitempty"`
-	Reps    int    `json:"reps,omitempty"`
-	Sched   []int  `json:"sched,omitempty"` // keyed: which session acts
-	Note    string `json:"note,omitempty"`
+	Kind    string            `json:"kind"` // seq | batch | cold | coldlsp | churn | lsp | keyed | post
+	Specs   []spec            `json:"specs,omitempty"`
+	Jobs    []int             `json:"jobs,omitempty"`
+	K       int               `json:"k,omitempty"`
+	Procs   int               `json:"procs,omitempty"`
+	OffSeed uint64            `json:"offseed,omitempty"`
+	N       int               `json:"n,omitempty"`
+	Reps    int               `json:"reps,omitempty"`
+	Sched   []int             `json:"sched,omitempty"` // keyed: which session acts
+	Note    string            `json:"note,omitempty"`
+	Graph   []gFile           `json:"graph,omitempty"` // gate: the import graph
+	Files   map[string]string `json:"files,omitempty"` // shareimp
+	Roots   []string          `json:"roots,omitempty"`
 }
 
 // ------------------------------------------------------------------ runner (parent side)
@@ -985,7 +992,7 @@ func main() {
 	}
 	defer r.w.Close()
 	c.Res.Extra["race_detector"] = raceEnabled
-	c.Res.Rule = "specs = repository .sysl files without remote imports + generated grammatical specs (nested blocks, calls, types, REST) + the same with one damaged line + mixin modules (chains, diamonds, cycles, missing sources); each spec is compiled sequentially (baseline, repeated) and in batches by k..64 goroutines with random start offsets and GOMAXPROCS 1..16, text and JSON serialisations compared byte for byte; the lexer-state map is driven by concurrent create/look-up/delete cycles; distinct = (spec, k, GOMAXPROCS) or sequential result; non-trivial = every concurrent compilation and every sequential compilation of a non-tiny spec"
+	c.Res.Rule = "specs = repository .sysl files without remote imports + generated grammatical specs (nested blocks, calls, types, REST) + the same with one damaged line + mixin modules (chains, diamonds, cycles, missing sources); each spec is compiled sequentially (baseline, repeated) and in batches by k..64 goroutines with random start offsets and GOMAXPROCS 1..16, text and JSON serialisations compared byte for byte; the lexer-state map is driven by concurrent create/look-up/delete cycles; distinct = (spec, k, GOMAXPROCS) or sequential result; non-trivial = every concurrent compilation and every sequential compilation of a non-tiny spec. Round 3: generated modules with views (untyped nested transforms under assignments and lets, shared by mixins, equal view and let names in several applications; non-trivial = something to infer) compared with the model and compiled repeatedly in one and in fresh processes; import graphs with differently spelled imports (letter case, ./, a/../, no extension, leading /) compiled through a gate reader under forced completion orders of the reads (distinct = (graph, completion order); non-trivial = a file named by several import statements); one parse.Parser value used twice in a row and by 8 goroutines; 8 compilations sharing one reader; an edit history of one document compiled in order by 1 and 4 goroutines"
 
 	if c.Replay != "" {
 		var rp replay
@@ -1327,6 +1334,7 @@ func main() {
 		}
 	}
 	phase("lsp")
+	r.round3(specs, base, phase)
 	c.Res.Extra["worker_restarts"] = r.w.Restarts
 }
 
@@ -1391,6 +1399,60 @@ func doReplay(r *runner, rp replay) {
 		base, stable, ok := r.sequential(sp, 10)
 		if ok {
 			r.batch(sp, base, stable, make([]int, 32), 16, 8, 1, "replay")
+		}
+	case "views":
+		// the module is compiled again and again, in this process and in fresh ones
+		sp := rp.Specs
+		for i := range sp {
+			sp[i].ID = i
+		}
+		base, stable, ok := r.sequential(sp, reps)
+		for i := 0; ok && i < 3 && r.deaths < 2; i++ {
+			w := common.NewWorker()
+			out, ok2 := r.callOn(w, req{Op: "seq", Specs: sp, Jobs: []int{0}}, rp, "")
+			w.Close()
+			if ok2 && len(out.Outcomes) == 1 && stable[0] && out.Outcomes[0] != base[0] {
+				c.Fail("unstable-sequential:views", fmt.Sprintf("compiled in two processes: %+v and %+v", base[0], out.Outcomes[0]), rp)
+				break
+			}
+		}
+	case "gate":
+		n := rp.N
+		if n <= 0 {
+			n = 60
+		}
+		r.gateSpec(rp.Graph, n, replay{Kind: "gate", Graph: rp.Graph, N: n}, nil)
+	case "pshare-reuse", "pshare-conc":
+		sp := rp.Specs
+		for i := range sp {
+			sp[i].ID = i
+		}
+		if b, _, ok := r.sequential(sp, 1); ok {
+			for i := 0; i < reps && r.deaths < 2; i++ {
+				k := rp.K
+				if k <= 0 {
+					k = 8
+				}
+				r.parserShared(sp, b, k, k, rp.OffSeed+uint64(i))
+			}
+		}
+	case "shareimp":
+		all := make([]int, len(rp.Roots))
+		for i := range all {
+			all[i] = i
+		}
+		base, ok := r.call(req{Op: "shareimp", R3: &r3req{Files: rp.Files, Roots: rp.Roots, Mode: "own"}, Jobs: all, K: 1}, rp)
+		for i := 0; ok && i < reps && r.deaths < 2; i++ {
+			out, ok2 := r.call(req{Op: "shareimp", R3: &r3req{Files: rp.Files, Roots: rp.Roots, Mode: "shared"}, Jobs: rp.Jobs, K: rp.K, Procs: rp.Procs, OffSeed: rp.OffSeed + uint64(i)}, rp)
+			if !ok2 {
+				break
+			}
+			for x, j := range rp.Jobs {
+				if x < len(out.Outcomes) && j < len(base.Outcomes) && out.Outcomes[x] != base.Outcomes[j] {
+					c.Fail("differs-concurrent:shared-reader", fmt.Sprintf("%s: %+v, alone %+v", rp.Roots[j], out.Outcomes[x], base.Outcomes[j]), rp)
+					break
+				}
+			}
 		}
 	default:
 		fmt.Fprintln(os.Stderr, "unknown replay kind", rp.Kind)
